@@ -10,6 +10,7 @@ import (
 	"fmt"
 	ebustate "github.com/jilio/ebu/state"
 	"math/rand/v2"
+	"os"
 	"runtime"
 	"sort"
 	"strings"
@@ -22,6 +23,7 @@ import (
 	"github.com/anishathalye/porcupine"
 	ebu "github.com/jilio/ebu"
 
+	"verif/harness/internal/stores"
 	"verif/harness/internal/vk"
 	"verif/harness/internal/watchdog"
 )
@@ -606,6 +608,52 @@ func TestC16Termination(t *testing.T) {
 			}
 			run.Case(cur, true)
 		}
+	}
+	// a dead-letter policy: the upcast error handler appends every event whose upcast failed to the
+	// log again (to be retried by a later run). An upcasting replay of a long log on a SQLite file
+	// with default options still terminates: it delivers the log as it was when it began
+	if run.Shard == 0 {
+		cur = "1100 events whose upcaster fails, on a SQLite file; the error handler appends each failed event again"
+		dog.Case(cur)
+		scratch := os.Getenv("VERIF_SCRATCH")
+		if scratch == "" {
+			scratch = t.TempDir()
+		}
+		os.MkdirAll(scratch, 0o755)
+		st, err := stores.Open("sqlite-file", scratch)
+		if err != nil {
+			t.Fatal(err)
+		}
+		const L = 1100
+		for k := 1; k <= L; k++ {
+			st.Store.Append(context.Background(), &ebu.Event{Type: "c16.legacy", Data: json.RawMessage(fmt.Sprintf(`{"n":%d}`, k)), Timestamp: time.Unix(int64(k), 0)})
+		}
+		reappended := 0
+		bus := ebu.New(ebu.WithStore(st.Store), ebu.WithUpcastErrorHandler(func(typ string, d json.RawMessage, _ error) {
+			if reappended < 20*L { // (bounded so that a replay that never ends cannot fill the disk)
+				reappended++
+				st.Store.Append(context.Background(), &ebu.Event{Type: typ, Data: d, Timestamp: time.Unix(1, 0)})
+			}
+		}))
+		ebu.RegisterUpcastFunc(bus, "c16.legacy", "c16.current", func(json.RawMessage) (json.RawMessage, string, error) {
+			return nil, "", errors.New("verif: this record cannot be converted")
+		})
+		rctx, rcancel := context.WithCancel(context.Background())
+		seen := 0
+		rerr := bus.ReplayWithUpcast(rctx, ebu.OffsetOldest, func(*ebu.StoredEvent) error {
+			if seen++; seen > 4*L {
+				rcancel() // far beyond the log's length: give up
+			}
+			return nil
+		})
+		rcancel()
+		dog.Tick()
+		if seen > 4*L || rerr != nil {
+			run.Violation("upcast-apply:replay-feeds-on-its-own-dead-letters", fmt.Sprintf("%s: the replay had delivered %d events when it was given up (err %v); the log held %d when it began", cur, seen, rerr, L), nil)
+		}
+		run.Case(cur, true)
+		st.Close()
+		st.Remove()
 	}
 	// a registration or a clear that arrives while a chain is being applied waits for it (or not),
 	// but applying the chain terminates with the whole chain either way
